@@ -63,7 +63,8 @@ fn check_value(ctx: &mut Ctx, name: &str, d: &[usize], vals_in: &[f64], kind: &O
             }
         }
     }
-    ctx.meta(|| format!("{} {:?} ok{:?}", kind.name(), d, results[0].0));
+    // (the operation family, not its parameter: some extreme-range cases pick their parameter by float width)
+    ctx.meta(|| format!("{} {:?} ok{:?}", kind.family(), d, results[0].0));
     for (i, (gd, gv, _)) in results.iter().enumerate() {
         ctx.count("elements_compared", want.v.len() as u64);
         let pointwise = matches!(kind, OpKind::Exp | OpKind::Ln | OpKind::Recip | OpKind::Sigmoid | OpKind::Softmax | OpKind::Powf(_) | OpKind::Scale(_));
@@ -276,7 +277,9 @@ pub fn run_case(ctx: &mut Ctx, fam: &str, k: u64, r: &mut Rng) {
             name = "softmax-wide".into();
             let last = *d.last().unwrap();
             let wide: Vec<f64> = q.chunks(last).flat_map(|row| {
-                let off = *r.pick(&[-80.0, -60.0, -30.0, 0.0, 30.0, 60.0, 80.0]);
+                // (the sum of a row's exponentials must stay finite in single precision too: long rows get smaller offsets)
+                let cap = 83.0 - (last as f64).ln() - 4.5;
+                let off = (*r.pick(&[-80.0f64, -60.0, -30.0, 0.0, 30.0, 60.0, 80.0])).min(cap.floor());
                 row.iter().map(move |x| off + x).collect::<Vec<f64>>()
             }).collect();
             check_value(ctx, "softmax", &d, &wide, &OpKind::Softmax, false)
